@@ -1,8 +1,12 @@
 // C12: HostTable.LookupCluster (basic rule tree, ADVANCED_MODE, ordered advanced rules) vs model ClusterLookup.v.
 // The route table is written as JSON and loaded with route_rule_conf.RouteConfLoad (conditions built by
 // condition.Build), then installed with HostTable.Update.
-// input : [basic adv [host path method]]  basic=[]|[rules]  adv=[]|[[[kind args cluster]..]]
-// output: [cluster err]  (err 0 ok, 1 ErrNoProductRule, 2 ErrNoMatchRule) ; Err(1) = configuration rejected
+// input : [stage..]  stage=[products requests]  products=[[name basic adv]..]  basic=[]|[rules]
+//         adv=[]|[[[kind args cluster]..]]  requests=[[product host path method url]..]  (url 0 = nil URL)
+//         The stages are loaded into the SAME HostTable in order (Update, then requests): act -> reload -> act.
+// output: per stage [[cluster err]..]  (err 0 ok, 1 ErrNoProductRule, 2 ErrNoMatchRule) ; Err(1) = file rejected
+// Several products share one pool of hosts/paths, so the same (host, path) is a basic hit in one product and a
+// miss in another: each request must be answered from the rules of its own product only.
 package main
 
 import (
@@ -51,35 +55,49 @@ func strs(v hv.Val) []string {
 }
 
 func impl(in hv.Val) hv.Val {
+	ht := new(bfe_route.HostTable)
+	out := hv.L{}
+	for _, st := range hv.AsList(in) {
+		out = append(out, implStage(ht, st))
+	}
+	return out
+}
+
+func implStage(ht *bfe_route.HostTable, in hv.Val) hv.Val {
 	top := hv.AsList(in)
 	basic := map[string]interface{}{}
-	if b := hv.AsList(top[0]); len(b) == 1 {
-		rules := []ruleFile{}
-		for _, rv := range hv.AsList(b[0]) {
-			l := hv.AsList(rv)
-			rules = append(rules, ruleFile{strs(l[0]), strs(l[1]), hv.AsStr(l[2])})
-		}
-		basic["prod"] = rules
-	}
-	file := map[string]interface{}{"Version": "v1", "BasicRule": basic}
-	if a := hv.AsList(top[1]); len(a) == 1 {
-		rules := []advFile{}
-		for _, rv := range hv.AsList(a[0]) {
-			l := hv.AsList(rv)
-			args := strings.Join(strs(l[1]), "|")
-			var cond string
-			switch hv.AsInt(l[0]) {
-			case 0:
-				cond = "default_t()"
-			case 1:
-				cond = `req_method_in("` + args + `")`
-			default:
-				cond = `req_path_prefix_in("` + args + `", false)`
+	advm := map[string]interface{}{}
+	for _, pv := range hv.AsList(top[0]) {
+		pl := hv.AsList(pv)
+		name := hv.AsStr(pl[0])
+		if b := hv.AsList(pl[1]); len(b) == 1 {
+			rules := []ruleFile{}
+			for _, rv := range hv.AsList(b[0]) {
+				l := hv.AsList(rv)
+				rules = append(rules, ruleFile{strs(l[0]), strs(l[1]), hv.AsStr(l[2])})
 			}
-			rules = append(rules, advFile{cond, hv.AsStr(l[2])})
+			basic[name] = rules
 		}
-		file["ProductRule"] = map[string]interface{}{"prod": rules}
+		if a := hv.AsList(pl[2]); len(a) == 1 {
+			rules := []advFile{}
+			for _, rv := range hv.AsList(a[0]) {
+				l := hv.AsList(rv)
+				args := strings.Join(strs(l[1]), "|")
+				var cond string
+				switch hv.AsInt(l[0]) {
+				case 0:
+					cond = "default_t()"
+				case 1:
+					cond = `req_method_in("` + args + `")`
+				default:
+					cond = `req_path_prefix_in("` + args + `", false)`
+				}
+				rules = append(rules, advFile{cond, hv.AsStr(l[2])})
+			}
+			advm[name] = rules
+		}
 	}
+	file := map[string]interface{}{"Version": "v1", "BasicRule": basic, "ProductRule": advm}
 	b, err := json.Marshal(file)
 	if err != nil {
 		panic(err)
@@ -92,26 +110,32 @@ func impl(in hv.Val) hv.Val {
 	if err != nil {
 		return hv.Err(1)
 	}
-	ht := new(bfe_route.HostTable)
 	ht.Update(host_rule_conf.HostConf{}, vip_rule_conf.VipConf{}, conf)
-	q := hv.AsList(top[2])
-	req := &bfe_basic.Request{
-		Session:     &bfe_basic.Session{},
-		HttpRequest: &bfe_http.Request{Host: hv.AsStr(q[0]), Method: hv.AsStr(q[2]), URL: &url.URL{Path: hv.AsStr(q[1])}},
+	out := hv.L{}
+	for _, qv := range hv.AsList(top[1]) {
+		q := hv.AsList(qv)
+		req := &bfe_basic.Request{
+			Session:     &bfe_basic.Session{},
+			HttpRequest: &bfe_http.Request{Host: hv.AsStr(q[1]), Method: hv.AsStr(q[3])},
+		}
+		if hv.AsInt(q[4]) != 0 {
+			req.HttpRequest.URL = &url.URL{Path: hv.AsStr(q[2])}
+		}
+		req.Route.Product = hv.AsStr(q[0])
+		err = ht.LookupCluster(req)
+		code := 0
+		switch {
+		case err == nil:
+		case err == bfe_route.ErrNoProductRule && req.Route.Error == err:
+			code = 1
+		case err == bfe_route.ErrNoMatchRule && req.Route.Error == err:
+			code = 2
+		default:
+			code = 9
+		}
+		out = append(out, hv.L{hv.S(req.Route.ClusterName), hv.I(code)})
 	}
-	req.Route.Product = "prod"
-	err = ht.LookupCluster(req)
-	code := 0
-	switch {
-	case err == nil:
-	case err == bfe_route.ErrNoProductRule && req.Route.Error == err:
-		code = 1
-	case err == bfe_route.ErrNoMatchRule && req.Route.Error == err:
-		code = 2
-	default:
-		code = 9
-	}
-	return hv.L{hv.S(req.Route.ClusterName), hv.I(code)}
+	return out
 }
 
 var words = []string{"a", "b", "com", "net", "www"}
@@ -151,12 +175,15 @@ func pathKey(p string) string {
 	return "E|" + p
 }
 
-func gen(r *hv.Rng, i int, tier string) (string, hv.Val) {
-	var hostBases, pathBases [][]string
+type ruleT struct {
+	hosts, paths []string
+}
+
+func genStage(r *hv.Rng, hostBases, pathBases [][]string) (string, hv.Val, hv.L, [][]string, [][]string) {
 	labels := func() []string {
-		if len(hostBases) > 0 && r.Chance(1, 2) {
+		if len(hostBases) > 0 && r.Chance(3, 5) {
 			b := hostBases[r.Intn(len(hostBases))]
-			if r.Bool() {
+			if r.Chance(1, 3) {
 				return append([]string{r.Pick(words)}, b...)
 			}
 			return append([]string{}, b...)
@@ -168,9 +195,9 @@ func gen(r *hv.Rng, i int, tier string) (string, hv.Val) {
 		return ls
 	}
 	pelems := func() []string {
-		if len(pathBases) > 0 && r.Chance(1, 2) {
+		if len(pathBases) > 0 && r.Chance(3, 5) {
 			b := pathBases[r.Intn(len(pathBases))]
-			if r.Bool() {
+			if r.Chance(1, 3) {
 				return append(append([]string{}, b...), r.Pick(elems))
 			}
 			return append([]string{}, b...)
@@ -181,183 +208,247 @@ func gen(r *hv.Rng, i int, tier string) (string, hv.Val) {
 		}
 		return es
 	}
-	class := ""
-	basic := hv.L{}
-	if r.Chance(5, 6) {
-		rules := hv.L{}
-		used := map[string]bool{}
-		for k := r.Range(0, 6); k > 0; k-- {
-			var hosts, paths []string
-			nh, np := r.Range(0, 2), r.Range(0, 2)
-			if nh == 0 && np == 0 {
-				nh = 1
-			}
-			for j := 0; j < nh; j++ {
-				ls := labels()
-				hostBases = append(hostBases, ls)
-				h := strings.Join(ls, ".")
-				switch x := r.Intn(10); {
-				case x < 3:
-					h = "*." + h
-				case x == 3:
-					h = "*"
-				}
-				if r.Chance(1, 5) {
-					h = flipCase(r, h)
-				}
-				hosts = append(hosts, h)
-			}
-			for j := 0; j < np; j++ {
-				es := pelems()
-				pathBases = append(pathBases, es)
-				p := "/" + strings.Join(es, "/")
-				switch x := r.Intn(10); {
-				case x < 4:
-					p += "*"
-				case x == 4:
-					p = "*"
-				}
-				paths = append(paths, p)
-			}
-			eh, ep := hosts, paths
-			if len(eh) == 0 {
-				eh = []string{"*"}
-			}
-			if len(ep) == 0 {
-				ep = []string{"*"}
-			}
-			dup := false
-			local := map[string]bool{}
-			for _, h := range eh {
-				for _, p := range ep {
-					key := hostKey(h) + "#" + pathKey(p)
-					if used[key] || local[key] {
-						dup = true
-					}
-					local[key] = true
-				}
-			}
-			if dup && !r.Chance(1, 60) {
-				continue
-			}
-			for key := range local {
-				used[key] = true
-			}
-			cl := "c" + string(rune('0'+r.Intn(10)))
-			if r.Chance(1, 3) {
-				cl = "ADVANCED_MODE"
-			}
-			if r.Chance(1, 40) {
-				cl = r.Pick([]string{"", "advanced_mode", "ADVANCED_MODE "})
-			}
-			rules = append(rules, hv.L{hv.LS(hosts), hv.LS(paths), hv.S(cl)})
-		}
-		basic = hv.L{rules}
-		class = "basic"
-	} else {
-		class = "nobasic"
+	nProd := r.Range(2, 4)
+	if r.Chance(1, 8) {
+		nProd = 1
 	}
-	adv := hv.L{}
-	if r.Chance(9, 10) {
-		rules := hv.L{}
-		n := r.Range(0, 6)
-		for k := 0; k < n; k++ {
-			cl := "a" + string(rune('0'+r.Intn(6)))
-			if r.Chance(1, 25) {
-				cl = r.Pick([]string{"", "ADVANCED_MODE"})
-			}
-			var kind int
-			args := []string{}
-			switch x := r.Intn(10); {
-			case x < 2 || (k == n-1 && x < 6):
-				kind = 0
-			case x < 6:
-				kind = 1
-				for j := r.Range(1, 2); j > 0; j-- {
-					args = append(args, r.Pick(methods))
+	names := []string{"pa", "pb", "pc", "pd"}[:nProd]
+	var pool []ruleT // basic rules already used by some product: reused verbatim by the others
+	prods := hv.L{}
+	nBasic, nAdv := 0, 0
+	for pi, name := range names {
+		tag := string(rune('a' + pi))
+		basic := hv.L{}
+		if r.Chance(5, 6) {
+			nBasic++
+			rules := hv.L{}
+			used := map[string]bool{}
+			for k := r.Range(0, 5); k > 0; k-- {
+				var hosts, paths []string
+				if len(pool) > 0 && r.Chance(1, 3) { // the very same hosts/paths as a rule of another product
+					t := pool[r.Intn(len(pool))]
+					hosts, paths = t.hosts, t.paths
+				} else {
+					nh, np := r.Range(0, 2), r.Range(0, 2)
+					if nh == 0 && np == 0 {
+						nh = 1
+					}
+					for j := 0; j < nh; j++ {
+						ls := labels()
+						hostBases = append(hostBases, ls)
+						h := strings.Join(ls, ".")
+						switch x := r.Intn(10); {
+						case x < 3:
+							h = "*." + h
+						case x == 3:
+							h = "*"
+						}
+						if r.Chance(1, 5) {
+							h = flipCase(r, h)
+						}
+						hosts = append(hosts, h)
+					}
+					for j := 0; j < np; j++ {
+						es := pelems()
+						pathBases = append(pathBases, es)
+						p := "/" + strings.Join(es, "/")
+						switch x := r.Intn(10); {
+						case x < 4:
+							p += "*"
+						case x == 4:
+							p = "*"
+						}
+						paths = append(paths, p)
+					}
 				}
+				eh, ep := hosts, paths
+				if len(eh) == 0 {
+					eh = []string{"*"}
+				}
+				if len(ep) == 0 {
+					ep = []string{"*"}
+				}
+				dup := false
+				local := map[string]bool{}
+				for _, h := range eh {
+					for _, p := range ep {
+						key := hostKey(h) + "#" + pathKey(p)
+						if used[key] || local[key] {
+							dup = true
+						}
+						local[key] = true
+					}
+				}
+				if dup && !r.Chance(1, 80) {
+					continue
+				}
+				for key := range local {
+					used[key] = true
+				}
+				pool = append(pool, ruleT{hosts, paths})
+				cl := "c" + tag + string(rune('0'+r.Intn(10)))
+				if r.Chance(1, 3) {
+					cl = "ADVANCED_MODE"
+				}
+				if r.Chance(1, 40) {
+					cl = r.Pick([]string{"", "advanced_mode", "ADVANCED_MODE "})
+				}
+				rules = append(rules, hv.L{hv.LS(hosts), hv.LS(paths), hv.S(cl)})
+			}
+			basic = hv.L{rules}
+		}
+		adv := hv.L{}
+		if r.Chance(5, 6) {
+			nAdv++
+			rules := hv.L{}
+			n := r.Range(0, 5)
+			for k := 0; k < n; k++ {
+				cl := "a" + tag + string(rune('0'+r.Intn(6)))
+				if r.Chance(1, 25) {
+					cl = r.Pick([]string{"", "ADVANCED_MODE"})
+				}
+				var kind int
+				args := []string{}
+				switch x := r.Intn(10); {
+				case x < 2 || (k == n-1 && x < 6):
+					kind = 0
+				case x < 6:
+					kind = 1
+					for j := r.Range(1, 2); j > 0; j-- {
+						args = append(args, r.Pick(methods))
+					}
+				default:
+					kind = 2
+					for j := r.Range(1, 2); j > 0; j-- {
+						p := "/" + strings.Join(pelems(), "/")
+						if r.Chance(1, 4) {
+							p = p[:r.Range(1, len(p))]
+						}
+						args = append(args, p)
+					}
+				}
+				rules = append(rules, hv.L{hv.I(kind), hv.LS(args), hv.S(cl)})
+			}
+			adv = hv.L{rules}
+		}
+		prods = append(prods, hv.L{hv.S(name), basic, adv})
+	}
+	// requests
+	reqs := hv.L{}
+	for k := r.Range(3, 6); k > 0; k-- {
+		prod := names[r.Intn(len(names))]
+		if r.Chance(1, 15) {
+			prod = "px" // not in the table
+		}
+		var ls []string
+		if len(hostBases) > 0 && r.Chance(5, 6) {
+			b := hostBases[r.Intn(len(hostBases))]
+			switch r.Intn(4) {
+			case 0, 1:
+				ls = append([]string{r.Pick(words)}, b...)
+			case 2:
+				ls = append([]string{}, b...)
 			default:
-				kind = 2
-				for j := r.Range(1, 2); j > 0; j-- {
-					p := "/" + strings.Join(pelems(), "/")
-					if r.Chance(1, 4) {
-						p = p[:r.Range(1, len(p))]
-					}
-					args = append(args, p)
-				}
+				ls = append([]string{r.Pick(words), r.Pick(words)}, b...)
 			}
-			rules = append(rules, hv.L{hv.I(kind), hv.LS(args), hv.S(cl)})
+		} else {
+			ls = make([]string, r.Range(1, 3))
+			for j := range ls {
+				ls[j] = r.Pick(words)
+			}
 		}
-		adv = hv.L{rules}
-		class += "+adv"
-	} else {
-		class += "+noadv"
-	}
-	// request
-	var ls []string
-	if len(hostBases) > 0 && r.Chance(5, 6) {
-		b := hostBases[r.Intn(len(hostBases))]
-		switch r.Intn(4) {
+		h := strings.Join(ls, ".")
+		if r.Chance(1, 4) {
+			h = flipCase(r, h)
+		}
+		if r.Chance(1, 8) {
+			h += "."
+		}
+		switch r.Intn(5) {
 		case 0, 1:
-			ls = append([]string{r.Pick(words)}, b...)
+			h += ":8080"
 		case 2:
-			ls = append([]string{}, b...)
-		default:
-			ls = append([]string{r.Pick(words), r.Pick(words)}, b...)
+			if r.Chance(1, 3) {
+				h += ":80:x"
+			}
 		}
-	} else {
-		ls = make([]string, r.Range(1, 3))
-		for j := range ls {
-			ls[j] = r.Pick(words)
+		var es []string
+		if len(pathBases) > 0 && r.Chance(5, 6) {
+			b := pathBases[r.Intn(len(pathBases))]
+			switch r.Intn(3) {
+			case 0:
+				es = append(append([]string{}, b...), r.Pick(elems))
+			default:
+				es = append([]string{}, b...)
+			}
+		} else {
+			es = make([]string, r.Range(0, 3))
+			for j := range es {
+				es[j] = r.Pick(elems)
+			}
+		}
+		p := "/" + strings.Join(es, "/")
+		if r.Chance(1, 8) {
+			p += "bar"
+		}
+		if r.Chance(1, 30) {
+			p = ""
+		}
+		m := r.Pick(methods)
+		if r.Chance(1, 10) {
+			m = strings.ToLower(m)
+		}
+		if r.Chance(1, 15) {
+			m = "DELETE"
+		}
+		u := 1
+		if r.Chance(1, 25) {
+			u = 0
+		}
+		reqs = append(reqs, hv.L{hv.S(prod), hv.S(h), hv.S(p), hv.S(m), hv.I(u)})
+	}
+	class := "prods" + string(rune('0'+nProd)) + "-basic" + string(rune('0'+nBasic)) + "-adv" + string(rune('0'+nAdv))
+	if nBasic == 0 && nAdv == 0 {
+		class = "prods0-norules"
+	}
+	return class, hv.L{prods, reqs}, reqs, hostBases, pathBases
+}
+
+// 1-3 stages on one HostTable over one shared pool; later stages replay the earlier requests (a tree or an
+// advanced list left over from the previous Update would answer them differently)
+func gen(r *hv.Rng, i int, tier string) (string, hv.Val) {
+	n := 1
+	if r.Chance(1, 2) {
+		n = r.Range(2, 3)
+	}
+	var hb, pb [][]string
+	stages := hv.L{}
+	class := ""
+	var prev hv.L
+	for k := 0; k < n; k++ {
+		c, st, reqs, hb2, pb2 := genStage(r.Fork(2000+k), hb, pb)
+		hb, pb = hb2, pb2
+		l := hv.AsList(st)
+		if k > 0 && r.Chance(1, 6) { // reload to an empty table
+			l = hv.L{hv.L{}, l[1]}
+			c = "cleared"
+		}
+		if k > 0 {
+			l = hv.L{l[0], append(append(hv.L{}, hv.AsList(l[1])...), prev...)}
+		}
+		prev = reqs
+		stages = append(stages, l)
+		if k == 0 {
+			class = c[:6] // "prodsN"
+		} else if c == "cleared" {
+			class += "+cleared"
+		} else {
+			class += "+reload"
 		}
 	}
-	h := strings.Join(ls, ".")
-	if r.Chance(1, 4) {
-		h = flipCase(r, h)
-	}
-	if r.Chance(1, 8) {
-		h += "."
-	}
-	switch r.Intn(5) {
-	case 0, 1:
-		h += ":8080"
-	case 2:
-		if r.Chance(1, 3) {
-			h += ":80:x"
-		}
-	}
-	var es []string
-	if len(pathBases) > 0 && r.Chance(5, 6) {
-		b := pathBases[r.Intn(len(pathBases))]
-		switch r.Intn(3) {
-		case 0:
-			es = append(append([]string{}, b...), r.Pick(elems))
-		default:
-			es = append([]string{}, b...)
-		}
-	} else {
-		es = make([]string, r.Range(0, 3))
-		for j := range es {
-			es[j] = r.Pick(elems)
-		}
-	}
-	p := "/" + strings.Join(es, "/")
-	if r.Chance(1, 8) {
-		p += "bar"
-	}
-	if r.Chance(1, 30) {
-		p = ""
-	}
-	m := r.Pick(methods)
-	if r.Chance(1, 10) {
-		m = strings.ToLower(m)
-	}
-	if r.Chance(1, 15) {
-		m = "DELETE"
-	}
-	return class, hv.L{basic, adv, hv.L{hv.S(h), hv.S(p), hv.S(m)}}
+	return class, stages
 }
 
 func main() {
-	hv.Main(&hv.Spec{Prop: "C12", Gen: gen, Impl: impl, Setup: setup, NQuick: 4000, NThorough: 100000})
+	hv.Main(&hv.Spec{Prop: "C12", Gen: gen, Impl: impl, Setup: setup, NQuick: 2500, NThorough: 60000})
 }
